@@ -396,6 +396,13 @@ type retPoint struct {
 	Block   *ssa.BasicBlock
 	Results []ssa.Value
 	Pos     token.Pos
+	// EdgeFacts: outcomes of the conditional edges taken from Block into the phi chain that carries the result
+	EdgeFacts []Fact
+}
+
+// factsOf: the branch outcomes known when the function returns through this point.
+func (rp retPoint) factsOf(fn *ssa.Function) []Fact {
+	return append(factsAt(fn, rp.Block), rp.EdgeFacts...)
 }
 
 // returnPoints expands each Return over phi-merged results (one level, every result index in idxs).
@@ -414,16 +421,16 @@ func returnPoints(fn *ssa.Function, idx int) []retPoint {
 		}
 		results := unspill(b, ret)
 		pos := ret.Pos()
-		out = append(out, expandPhi(b, results, idx, pos, map[*ssa.Phi]bool{})...)
+		out = append(out, expandPhi(b, results, idx, pos, map[*ssa.Phi]bool{}, nil)...)
 	}
 	return out
 }
 
-func expandPhi(b *ssa.BasicBlock, results []ssa.Value, idx int, pos token.Pos, seen map[*ssa.Phi]bool) []retPoint {
+func expandPhi(b *ssa.BasicBlock, results []ssa.Value, idx int, pos token.Pos, seen map[*ssa.Phi]bool, edgeFacts []Fact) []retPoint {
 	v := results[idx]
 	phi, ok := v.(*ssa.Phi)
 	if !ok || seen[phi] {
-		return []retPoint{{Block: b, Results: results, Pos: pos}}
+		return []retPoint{{Block: b, Results: results, Pos: pos, EdgeFacts: edgeFacts}}
 	}
 	seen[phi] = true
 	var out []retPoint
@@ -437,7 +444,16 @@ func expandPhi(b *ssa.BasicBlock, results []ssa.Value, idx int, pos token.Pos, s
 			}
 		}
 		pred := phi.Block().Preds[i]
-		out = append(out, expandPhi(pred, rs, idx, pos, seen)...)
+		ef := append([]Fact(nil), edgeFacts...)
+		if ifi, ok := pred.Instrs[len(pred.Instrs)-1].(*ssa.If); ok && len(pred.Succs) == 2 && pred.Succs[0] != pred.Succs[1] {
+			atom, pol := condAtom(ifi.Cond)
+			if pred.Succs[0] == phi.Block() {
+				ef = append(ef, Fact{ifi, atom, pol})
+			} else if pred.Succs[1] == phi.Block() {
+				ef = append(ef, Fact{ifi, atom, !pol})
+			}
+		}
+		out = append(out, expandPhi(pred, rs, idx, pos, seen, ef)...)
 	}
 	return out
 }
